@@ -778,7 +778,7 @@ func (sc *SimConfig) Init(s *simbox.Simbox, vm *VM, conf *Config) error {
 			if rule.Suspended {
 				continue
 			}
-			if conf.Debug {
+			if conf != nil && conf.Debug {
 				fmt.Println("Loading simbox rule:", rule)
 			}
 			// Intercept the set rules
